@@ -104,7 +104,10 @@ def _do(call, scratch):
             like = targets.make_like("gauss", "d.txt", call.get("run", "r"), os.path.join(scratch, call.get("data", "data_r")), call.get("fn_set", "core_maths"))
             if op == "fit":
                 import esr.fitting.test_all as m
-                m.main(call["n"], like, **opts["fit"])
+                fo = dict(opts["fit"])
+                if call.get("prev"):
+                    fo["ignore_previous_eqns"] = True
+                m.main(call["n"], like, **fo)
             elif op == "fisher":
                 import esr.fitting.test_all_Fisher as m
                 m.main(call["n"], like, **opts["fisher"])
